@@ -70,3 +70,147 @@ Definition check_shape (c : case) : bool :=
 
 Definition puts (ks : list nat) : list top := map (fun n => TPut (Z.of_nat n) (Z.of_nat n * 10)) ks.
 Definition dels (ks : list Z) : list top := map TDel ks.
+
+(* 1. maxKVs + 1 ascending inserts split the root leaf: root [8], left 0..7 (old id), right 9..15. *)
+Definition h_split : list top :=
+  puts (seq 0 (S maxK)) ++
+  [TShape; TLen; TFirst; TLast; TGet 8; TGetCost 8; TGetCost 15; TContains 99].
+
+Definition obs_split : list tout :=
+  repeat OUnit (S maxK) ++
+  [OShape [0; 1; 8;  1; 8; 0; 1; 2; 3; 4; 5; 6; 7;  1; 7; 9; 10; 11; 12; 13; 14; 15];
+   OInt 16; OPair 0 0; OPair 15 150; OInt 80; OInt 1; OInt 8; OBool false].
+
+Example ex_split_run : run_M_shipped 0 h_split = obs_split.
+Proof. vm_compute. reflexivity. Qed.
+
+Example ex_split_checks :
+  check_M (0, h_split, obs_split) && check_S (0, h_split, obs_split)
+  && check_shape (0, h_split, obs_split) = true.
+Proof. vm_compute. reflexivity. Qed.
+
+(* the checks do reject a wrong observation *)
+Example ex_split_reject :
+  check_M (0, [TPut 1 2; TGet 1], [OUnit; OInt 3]) || check_S (0, [TPut 1 2; TGet 1], [OUnit; OInt 3])
+  || check_shape (0, [TPut 1 2; TShape], [OUnit; OShape [0; 1; 2]]) = false.
+Proof. vm_compute. reflexivity. Qed.
+
+(* 2. ... and merge back: Delete 15 steals from the left sibling (rotateRight), Delete 14 merges the
+   two leaves and collapses the root. *)
+Definition h_merge : list top :=
+  puts (seq 0 (S maxK)) ++
+  [TShape; TDel 15; TShape; TDel 14; TShape;
+   TRange BUnb BUnb; TRangeRev (BInc 3) (BExc 9); TRange (BExc 20) BUnb; TLen].
+
+Definition obs_merge : list tout :=
+  repeat OUnit (S maxK) ++
+  [OShape [0; 1; 8;  1; 8; 0; 1; 2; 3; 4; 5; 6; 7;  1; 7; 9; 10; 11; 12; 13; 14; 15];
+   OUnit;
+   OShape [0; 1; 7;  1; 7; 0; 1; 2; 3; 4; 5; 6;  1; 7; 8; 9; 10; 11; 12; 13; 14];
+   OUnit;
+   OShape [0; 14; 0; 1; 2; 3; 4; 5; 6; 7; 8; 9; 10; 11; 12; 13];
+   OList (map (fun n => (Z.of_nat n, Z.of_nat n * 10)) (seq 0 14));
+   OList [(8, 80); (7, 70); (6, 60); (5, 50); (4, 40); (3, 30)];
+   OList [];
+   OInt 14].
+
+Example ex_merge_run : run_M_shipped 0 h_merge = obs_merge.
+Proof. vm_compute. reflexivity. Qed.
+
+Example ex_merge_checks :
+  check_M (0, h_merge, obs_merge) && check_S (0, h_merge, obs_merge)
+  && check_shape (0, h_merge, obs_merge) = true.
+Proof. vm_compute. reflexivity. Qed.
+
+(* node identities through split / steal / merge / collapse: ids of all nodes in preorder *)
+Definition ids_after (ops : list top) : list nat :=
+  map nid (nodes (root (m_t (fst (steps_M minK maxK 0 m0 ops))))).
+
+Example ex_ids :
+  ids_after (puts (seq 0 (S maxK))) = [2; 0; 1]%nat            (* new root 2, left keeps 0, right 1 *)
+  /\ ids_after (puts (seq 0 (S maxK)) ++ [TDel 15; TDel 14]) = [0]%nat.  (* merged into left; root dropped *)
+Proof. vm_compute. split; reflexivity. Qed.
+
+(* 3. a live forward and a live reverse iterator while keys around them are deleted / inserted
+   (three-level-free but multi-node tree of 40 keys; the leaves the iterators are parked on are
+   shifted, merged and unlinked). *)
+Definition h_iter : list top :=
+  puts (seq 0 40) ++
+  [TIterNew false (BInc 5) (BExc 30); TIterNew true BUnb (BInc 33);
+   TIterNext 0; TIterNext 1; TIterNext 0; TIterNext 1;
+   TDel 7; TDel 31; TIterNext 0; TIterNext 1;
+   TPut 7 777; TDel 8; TDel 9; TDel 10; TDel 11; TDel 12; TDel 13; TDel 14;
+   TIterNext 0; TIterNext 0;
+   TPut 30 1; TDel 29; TDel 28; TDel 27; TDel 26; TDel 25; TDel 24; TDel 23;
+   TIterNext 1; TIterNext 1; TIterNext 1; TIterNext 5]
+  ++ dels (map Z.of_nat (seq 15 30))
+  ++ [TIterNext 0; TIterNext 1; TIterNext 1; TIterNext 0; TIterNext 1; TIterNext 1; TLen].
+
+Definition obs_iter : list tout :=
+  repeat OUnit 40 ++
+  [OUnit; OUnit;
+   OPair 5 50; OPair 33 330; OPair 6 60; OPair 32 320;
+   OUnit; OUnit; OPair 8 80; OPair 30 300;
+   OUnit; OUnit; OUnit; OUnit; OUnit; OUnit; OUnit; OUnit;
+   OPair 15 150; OPair 16 160;
+   OUnit; OUnit; OUnit; OUnit; OUnit; OUnit; OUnit; OUnit;
+   OPair 22 220; OPair 21 210; OPair 20 200; OBad]
+  ++ repeat OUnit 30
+  ++ [OEnd; OPair 7 777; OPair 6 60; OEnd; OPair 5 50; OPair 4 40; OInt 8].
+
+Example ex_iter_run : run_M_shipped 0 h_iter = obs_iter.
+Proof. vm_compute. reflexivity. Qed.
+
+Example ex_iter_checks : check_M (0, h_iter, obs_iter) && check_S (0, h_iter, obs_iter) = true.
+Proof. vm_compute. reflexivity. Qed.
+
+(* coarse order (mode 2 and 4): the stored key survives an equivalent Put (Get 4 finds 5's entry,
+   written through key 6).  The live iterator is parked on key 5 (c.k = 5) when 5 is deleted
+   (Delete 7) and the equivalent key 4 is inserted in the same slot: lost() compares c.k with
+   keys[i] = 4, finds them equivalent, and Next hands back the REMEMBERED key 5 with 4's value.
+   So M and S agree on keys only up to cmp-equivalence (see ex_M_vs_S_coarse below).
+   getcost under LessCompare counts calls of less. *)
+Definition h_coarse : list top :=
+  [TPut 5 1; TPut 6 2; TPut 9 3; TPut 1 4; TGet 4; TFirst; TLast; TLen;
+   TIterNew false BUnb BUnb; TIterNext 0; TDel 7; TPut 4 9; TIterNext 0; TIterNext 0; TIterNext 0;
+   TRange (BInc 3) (BExc 8); TGetCost 8].
+
+Example ex_coarse_run_cmp :
+  run_M_shipped 2 h_coarse =
+  [OUnit; OUnit; OUnit; OUnit; OInt 2; OPair 1 4; OPair 9 3; OInt 3;
+   OUnit; OPair 1 4; OUnit; OUnit; OPair 5 9; OPair 9 3; OEnd;
+   OList [(1, 4); (4, 9)]; OInt 3].
+Proof. vm_compute. reflexivity. Qed.
+
+Example ex_coarse_cost_less : nth 16 (run_M_shipped 4 h_coarse) OBad = OInt 6.
+Proof. vm_compute. reflexivity. Qed.
+
+(* M and S agree on the example histories (TShape/TGetCost are answered OUnit by S, so they are
+   removed first), for every key order. *)
+Definition no_probe (ops : list top) : list top :=
+  filter (fun o => negb (is_shape o || is_cost o)) ops.
+
+Example ex_M_eq_S_split : forall mode, In mode [0; 1; 3] ->
+  run_M_shipped mode (no_probe h_split) = run_S mode (no_probe h_split).
+Proof. intros mode [<-|[<-|[<-|[]]]]; vm_compute; reflexivity. Qed.
+
+Example ex_M_eq_S_merge : forall mode, In mode [0; 1; 3] ->
+  run_M_shipped mode (no_probe h_merge) = run_S mode (no_probe h_merge).
+Proof. intros mode [<-|[<-|[<-|[]]]]; vm_compute; reflexivity. Qed.
+
+Example ex_M_eq_S_iter : forall mode, In mode [0; 1; 3] ->
+  run_M_shipped mode (no_probe h_iter) = run_S mode (no_probe h_iter).
+Proof. intros mode [<-|[<-|[<-|[]]]]; vm_compute; reflexivity. Qed.
+
+(* outputs equal up to cmp-equivalence of keys *)
+Definition outs_equiv (mode : Z) (a b : list tout) : bool :=
+  list_eqb (tout_eqb (fun x y => is_eq (mode_cmp mode x y))) a b.
+
+(* under the coarse orders M and S agree up to key equivalence, and NOT exactly: the iterator of M
+   (like the real one) returns the key it remembered, S the key now stored. *)
+Example ex_M_vs_S_coarse : forall mode, In mode [2; 4] ->
+  outs_equiv mode (run_M_shipped mode (no_probe (h_coarse ++ h_iter)))
+                  (run_S mode (no_probe (h_coarse ++ h_iter))) = true
+  /\ nth 12 (run_M_shipped mode h_coarse) OBad = OPair 5 9
+  /\ nth 12 (run_S mode h_coarse) OBad = OPair 4 9.
+Proof. intros mode [<-|[<-|[]]]; vm_compute; repeat split; reflexivity. Qed.
